@@ -3,6 +3,15 @@
 //! (simplest alternative at 0); an exhausted tape yields 0. Shorter tape / smaller cells
 //! therefore mean simpler inputs, which is what the minimiser exploits.
 
+thread_local! {
+    static RAN_OUT: std::cell::Cell<u64> = const { std::cell::Cell::new(0) };
+}
+
+/// number of tapes that ran out on this thread since the last call (read and reset by the runner)
+pub fn take_ran_out() -> u64 {
+    RAN_OUT.with(|c| c.replace(0))
+}
+
 #[derive(Clone)]
 pub struct Tape<'a> {
     cells: &'a [u16],
@@ -23,6 +32,11 @@ impl<'a> Tape<'a> {
     }
 
     pub fn next(&mut self) -> u16 {
+        if self.pos == self.cells.len() && !self.cells.is_empty() {
+            // the generator asks for more than the tape holds: from here on every choice is the simplest one.
+            // Counted per thread so that the runner can report how often a phase runs out of tape.
+            RAN_OUT.with(|c| c.set(c.get() + 1));
+        }
         let v = self.cells.get(self.pos).copied().unwrap_or(0);
         self.pos += 1;
         v
